@@ -596,7 +596,11 @@ def evaluate_payload_template(input, context, template):
         # Extract intrinsic name and normalise it to asl_intrinsic_<name>
         func, args = intrinsic.split("(", 1)
         func = func.strip()
-        normalised_func = func.replace("States.", "asl_intrinsic_")
+        if not func.startswith("States."):
+            raise IntrinsicFailure(
+                "{} is not an Intrinsic Function.".format(func)
+            )
+        normalised_func = "asl_intrinsic_" + func[len("States."):]
         # Extract raw args string
         args = args.rsplit(")", 1)[0]
 
